@@ -300,20 +300,46 @@ FIXED_HISTORIES = {
 
 # ----------------------------------------------------------------------------- oracle (implementation only)
 
+def eager(shape, d, opts):
+    """What the graph's bodies compute, written directly (no labrea at all): the correct value for
+    these options, and the bodies an uncached evaluation executes, in order."""
+    od = dict(opts)
+    runs = []
+
+    def ev(i):
+        vals = tuple(od[a[1]] if a[0] == "o" else ev(a[1]) for a in shape[i])
+        ok = not any(isinstance(v, int) and v == BAD for v in vals)
+        runs.append((i, ok))
+        if not ok:
+            raise BodyErr(i)
+        return ("t", i) + vals
+    try:
+        return "ok:" + show_val(ev(d)), runs
+    except BodyErr as e:
+        return f"raise:{e.d}", runs
+
+
 class Reference:
     """Cache-free yardstick: a FRESH graph (default MemoryCache backends, never the scripted ones)
     evaluated under labrea.cache.disabled(); memoised per (graph, dataset, options) — it is a pure
-    function of those."""
+    function of those.  It must itself be the eager computation of the bodies."""
 
     def __init__(self):
         self.memo = {}
 
-    def get(self, gname, shape, d, opts):
+    def get(self, gname, shape, d, opts, viol=None):
         key = (gname, d, tuple(opts))
         if key not in self.memo:
             w = World(shape, faulty=False)   # genuinely fresh objects for every distinct question
             res, calls, runs = w.evaluate("runtime", d, opts)
-            self.memo[key] = (res, [(i, ok) for i, ok, _ in runs], show_eval(res, calls, runs))
+            runs2 = [(i, ok) for i, ok, _ in runs]
+            want, want_runs = eager(shape, d, opts)
+            if (res, runs2) != (want, want_runs) and viol is not None:
+                viol.append(dict(desc="a fresh graph evaluated under labrea.cache.disabled() does not return the value its bodies compute "
+                                      "(the cache layer changes results even when switched off)",
+                                 graph=gname, shape=shape, script="", history=hist_json([("runtime", d, opts)]),
+                                 evaluation_index=0, got=res, want=want, got_runs=runs2, want_runs=want_runs))
+            self.memo[key] = (want, want_runs, show_eval(res, calls, runs))
         return self.memo[key]
 
 
@@ -337,20 +363,20 @@ def run_scenario(w, gname, script, hist, ref, viol, stats):
                     twice = dict(dataset=i, fingerprint=fp, first=succeeded[(i, fp)], again=idx)
                 if ok:
                     succeeded.setdefault((i, fp), idx)
-        want, want_runs, _ = ref.get(gname, w.shape, d, opts)
+        want, want_runs, _ = ref.get(gname, w.shape, d, opts, viol)
         got_runs = [(i, ok) for i, ok, _ in runs]
         stats["evaluations"] += 1
         bad = None
         if res != want:
             if res.startswith("exc:"):
-                bad = f"evaluation raised {res[4:]} although the cache-free evaluation " + (
+                bad = f"evaluation raised {res[4:]} although the cache-free computation " + (
                     "returns a value" if want.startswith("ok:") else "raises the body's own error")
             elif res.startswith("ok:") and want.startswith("ok:"):
-                bad = "evaluation returned a value different from the cache-free evaluation"
+                bad = "evaluation returned a value different from the correct (cache-free) value for its options"
             elif res.startswith("ok:"):
-                bad = "evaluation returned a value although the cache-free evaluation raises"
+                bad = "evaluation returned a value although a body raises for these options (cache-free: the body's error)"
             else:
-                bad = "evaluation failed although the cache-free evaluation does not fail that way"
+                bad = "evaluation failed although the cache-free computation does not fail that way"
         elif not is_subsequence(got_runs, want_runs):
             bad = "bodies executed are not a subsequence of the cache-free evaluation's (more than recomputation)"
         if bad:
@@ -552,6 +578,13 @@ def run(ctx):
                                  impl=line, model=ml))
     lib.log(f"[C17] model side: {len(exprs) + len(ref_exprs)} vm_compute cases in {time.time() - t0:.1f}s")
 
+    seen, uniq = set(), []
+    for v in viol:
+        hh = lib.stable_hash([v["desc"], v["shape"], v["script"], v["history"], v["evaluation_index"]])
+        if hh not in seen:
+            seen.add(hh)
+            uniq.append(v)
+    viol = uniq
     viol.sort(key=lambda v: (len(v["script"].rstrip("B")), len(v["history"]), v["evaluation_index"]))
     violations = [dict(v, finding=None) for v in viol[:50]]
     step = max(1, len(cases) // 4)
